@@ -911,7 +911,10 @@ impl ASN1Type {
             ASN1Type::ElsewhereDeclaredType(DeclarationElsewhere { identifier, .. }) => {
                 Cow::Borrowed(identifier)
             }
-            ASN1Type::ChoiceSelectionType(_) => todo!(),
+            // a selection type that could not be linked (e.g. its CHOICE is undefined) is named by its notation
+            ASN1Type::ChoiceSelectionType(c) => {
+                Cow::Owned(format!("{} < {}", c.selected_option, c.choice_name))
+            }
             ASN1Type::ObjectIdentifier(_) => Cow::Borrowed(OBJECT_IDENTIFIER),
             ASN1Type::ObjectClassField(ifr) => Cow::Owned(format!(
                 "{INTERNAL_IO_FIELD_REF_TYPE_NAME_PREFIX}{}${}",
